@@ -36,8 +36,8 @@ package swagen30
 //@ loop 0 invariant schema.Value != nil
 
 // ---- operations (C01), security (C04), parameters (C06) ----
-//@ event opRegistered(verb string, op *openapi3.Operation)
-//@ event pathSet(path string)
+//@ event opRegistered(verb string, op *openapi3.Operation) local
+//@ event pathSet(path string) local
 //@ extern github.com/getkin/kin-openapi/openapi3.PathItem.SetOperation
 //@ emits opRegistered(method, operation)
 //@ extern github.com/getkin/kin-openapi/openapi3.Paths.Set
